@@ -32,6 +32,10 @@ Dispatch(St, e) ==
       [] e.op = "iter"     -> IF B(e.a.sorted) THEN IterKeys(St, B(e.a.rev)) ELSE Iter(St, B(e.a.rev))
       [] e.op = "stats"    -> Stats(St, B(e.a.en), B(e.a.rs))
       [] e.op = "tick"     -> Res(St, RNone, FALSE)
+      \* the tag index is an index: creating or dropping it changes no result
+      [] e.op = "tagindex" -> Res(St, RNone, FALSE)
+      \* volume() = bytes of the database pages (observed: e.pbe) + recorded size of the value files
+      [] e.op = "volume"   -> Res(St, RInt(e.pbe + SizeSum(St.rows)), FALSE)
       [] e.op = "close"    -> Res(St, RNone, FALSE)      \* closing a handle changes nothing
       \* C18: reopening, pickling, forking, another thread or process change nothing by themselves; an operation
       \* performed through any other handle is the same step on the one directory state
